@@ -90,7 +90,7 @@ func init() {
 		Title:      "Value comparison is a coherent order across all numeric types and strings",
 		Level:      "exploration",
 		Exhaustive: true,
-		Rule: "SQL phase also: ORDER BY with a second key over cross-type ties and with letter-initial strings among the numbers, float32 values that are not short in binary, negative zero, the same digits as a string and a numeric constant of one statement. exhaustive enumeration of a finite representative domain: every supported Go numeric type (int, int8..int64, uint, uint8..uint64, float32, float64) x boundary values the type holds exactly (min/max of every narrow type, +-1 around them, fractions, 2^31, 2^32, 2^53 +-1, 2^62, int64/uint64 extremes) " +
+		Rule: "sorts of 33..72 rows (numeric-looking strings among them); comparisons with a computed operand over doubles that differ in their last bits; three-table joins with BETWEEN / NOT over the joined side's column. SQL phase also: ORDER BY with a second key over cross-type ties and with letter-initial strings among the numbers, float32 values that are not short in binary, negative zero, the same digits as a string and a numeric constant of one statement. exhaustive enumeration of a finite representative domain: every supported Go numeric type (int, int8..int64, uint, uint8..uint64, float32, float64) x boundary values the type holds exactly (min/max of every narrow type, +-1 around them, fractions, 2^31, 2^32, 2^53 +-1, 2^62, int64/uint64 extremes) " +
 			"and strings (empty, numeric-looking, prefixes of each other, non-ASCII). Phase 'pairs' = ALL ordered pairs: result in {-1,0,1}, agreement with the exact order (math/big rationals; strings byte-wise; number vs string by the number's decimal text), reflexivity, antisymmetry. " +
 			"Phase 'sql' drives the same comparison through the engine over tables whose key column mixes Go numeric types and numeric strings (small integral and dyadic values, where every engine path is defined): WHERE =,<,>=; IN (also lists of 9..14 literals); [NOT] BETWEEN with number and string bounds; ORDER BY; equi-joins (hash path) and equi-joins with an extra conjunct (nested-loop path) must keep / order / pair exactly what the exact order says. Phase 'triples' = ALL same-kind triples (thorough) or a seeded 10% sample (quick): transitivity. Non-trivial = a pair of two different values; distinct = distinct (type,value) pair.",
 		Assumptions: []string{
